@@ -16,7 +16,10 @@
 //!
 //! LM: RSS(returned) ≤ RSS(start) for every step budget 0..200, the least-squares solution is
 //! reached on models linear in the parameters (`LM::new(1e-14, 1e-14, τ)`), covariance =
-//! `RSS/(n−p)·(JᵀJ)⁻¹` with an analytic Jacobian at the returned point.
+//! `RSS/(n−p)·(JᵀJ)⁻¹` with an analytic Jacobian at the returned point. The same three clauses at absolute
+//! scales far from 1 (`lm-scaled:*`: basis functions multiplied by 1e-12..1e12, tolerances adapted to the scale
+//! and default tolerances; `lm-plateau:*`: exponential / logistic fits started where the model is flat), the
+//! covariance judged scale-free against the unit-diagonal form of JᵀJ — see `mod lm`.
 use crate::gen::Rng;
 use crate::oracle::dd::Dd;
 use crate::oracle::linref;
@@ -667,6 +670,18 @@ mod lm {
         Trig,
         Exp,
         Logistic,
+        /// Σ p_i·(c_i·x^i): polynomial basis, every basis function multiplied by its own constant `Fit::scale[i]`
+        ScaledPoly,
+        /// Σ p_i·(c_i·trig_i(x))
+        ScaledTrig,
+    }
+
+    /// pins a closure to the higher-ranked signature `Optimizer::optimize` asks for
+    fn hr<F>(f: F) -> F
+    where
+        F: for<'a> Fn(&[Var<'a>], &[&[f64]]) -> Var<'a>,
+    {
+        f
     }
 
     pub fn m_poly<'a>(p: &[Var<'a>], d: &[&[f64]]) -> Var<'a> {
@@ -705,6 +720,8 @@ mod lm {
         pub xs: Vec<f64>,
         pub ys: Vec<f64>,
         pub start: Vec<f64>,
+        /// per-parameter factor of the basis functions (`ScaledPoly` / `ScaledTrig` only)
+        pub scale: Vec<f64>,
     }
 
     impl Fit {
@@ -714,6 +731,7 @@ mod lm {
                 Model::Trig => "lm:linear-trig",
                 Model::Exp => "lm:exp",
                 Model::Logistic => "lm:logistic",
+                Model::ScaledPoly | Model::ScaledTrig => "lm-scaled",
             }
         }
         pub fn linear(&self) -> bool {
@@ -726,6 +744,14 @@ mod lm {
                 Model::Trig => o.optimize(m_trig, &self.start, &d, k),
                 Model::Exp => o.optimize(m_exp, &self.start, &d, k),
                 Model::Logistic => o.optimize(m_logistic, &self.start, &d, k),
+                Model::ScaledPoly => {
+                    let c = &self.scale;
+                    o.optimize(hr(|p, d| { let x = d[0][0]; p.iter().enumerate().map(|(i, &v)| v * (c[i] * x.powi(i as i32))).sum() }), &self.start, &d, k)
+                }
+                Model::ScaledTrig => {
+                    let c = &self.scale;
+                    o.optimize(hr(|p, d| { let x = d[0][0]; p.iter().enumerate().map(|(i, &v)| v * (c[i] * trig_basis(x, i))).sum() }), &self.start, &d, k)
+                }
             };
             (p.v, c.data.v.clone(), c.nrows, c.ncols)
         }
@@ -735,12 +761,16 @@ mod lm {
                 Model::Trig => p.iter().enumerate().map(|(i, v)| v * trig_basis(x, i)).sum(),
                 Model::Exp => p[0] * (p[1] * x).exp() + if p.len() > 2 { p[2] } else { 0.0 },
                 Model::Logistic => p[0] / (1.0 + (-(p[1] * (x - p[2]))).exp()),
+                Model::ScaledPoly => p.iter().enumerate().map(|(i, v)| v * (self.scale[i] * x.powi(i as i32))).sum(),
+                Model::ScaledTrig => p.iter().enumerate().map(|(i, v)| v * (self.scale[i] * trig_basis(x, i))).sum(),
             }
         }
         pub fn jac_row(&self, p: &[f64], x: f64) -> Vec<f64> {
             match self.model {
                 Model::Poly => (0..p.len()).map(|i| x.powi(i as i32)).collect(),
                 Model::Trig => (0..p.len()).map(|i| trig_basis(x, i)).collect(),
+                Model::ScaledPoly => (0..p.len()).map(|i| self.scale[i] * x.powi(i as i32)).collect(),
+                Model::ScaledTrig => (0..p.len()).map(|i| self.scale[i] * trig_basis(x, i)).collect(),
                 Model::Exp => {
                     let e = (p[1] * x).exp();
                     let mut r = vec![e, p[0] * x * e];
@@ -750,8 +780,12 @@ mod lm {
                     r
                 }
                 Model::Logistic => {
-                    let s = 1.0 / (1.0 + (-(p[1] * (x - p[2]))).exp());
-                    vec![s, p[0] * s * (1.0 - s) * (x - p[2]), -p[0] * s * (1.0 - s) * p[1]]
+                    let z = p[1] * (x - p[2]);
+                    let s = 1.0 / (1.0 + (-z).exp());
+                    // s(1−s) = u/(1+u)², u = exp(−|z|): no cancellation on the plateaus (1 − s loses every digit at s ≈ 1)
+                    let u = (-z.abs()).exp();
+                    let w = u / ((1.0 + u) * (1.0 + u));
+                    vec![s, p[0] * w * (x - p[2]), -p[0] * w * p[1]]
                 }
             }
         }
@@ -770,21 +804,21 @@ mod lm {
 
     pub fn random_fit(rng: &mut Rng, model: Model) -> Fit {
         let np = match model {
-            Model::Poly | Model::Trig => rng.usize(1, 5),
+            Model::Poly | Model::Trig | Model::ScaledPoly | Model::ScaledTrig => rng.usize(1, 5),
             Model::Exp => rng.usize(2, 3),
             Model::Logistic => 3,
         };
         let n = (rng.log_range(5.0, 200.0).round() as usize).max(np + 2);
         let (lo, hi) = match model {
-            Model::Poly => *rng.choose(&[(-1.0, 1.0), (-1.0, 1.0), (0.0, 1.0), (0.0, 3.0), (-2.0, 5.0)]),
-            Model::Trig => *rng.choose(&[(0.0, 6.3), (-3.0, 3.0), (0.0, 2.0)]),
+            Model::Poly | Model::ScaledPoly => *rng.choose(&[(-1.0, 1.0), (-1.0, 1.0), (0.0, 1.0), (0.0, 3.0), (-2.0, 5.0)]),
+            Model::Trig | Model::ScaledTrig => *rng.choose(&[(0.0, 6.3), (-3.0, 3.0), (0.0, 2.0)]),
             Model::Exp => (0.0, rng.range(1.0, 3.0)),
             Model::Logistic => (-4.0, 4.0),
         };
         let mut xs: Vec<f64> = (0..n).map(|_| rng.range(lo, hi)).collect();
         xs.sort_by(|a, b| a.partial_cmp(b).unwrap());
         let truth: Vec<f64> = match model {
-            Model::Poly | Model::Trig => rng.vec(np, -3.0, 3.0),
+            Model::Poly | Model::Trig | Model::ScaledPoly | Model::ScaledTrig => rng.vec(np, -3.0, 3.0),
             Model::Exp => {
                 let mut t = vec![rng.range(0.5, 3.0) * if rng.bool() { 1.0 } else { -1.0 }, rng.range(-1.5, 1.0)];
                 if np > 2 {
@@ -795,11 +829,11 @@ mod lm {
             Model::Logistic => vec![rng.range(1.0, 5.0), rng.range(0.5, 3.0), rng.range(-1.5, 1.5)],
         };
         let noise = rng.log_range(1e-3, 0.3);
-        let mut f = Fit { model, xs, ys: vec![], start: vec![] };
+        let mut f = Fit { model, xs, ys: vec![], start: vec![], scale: vec![1.0; np] };
         f.ys = f.xs.iter().map(|&x| f.value(&truth, x) + noise * rng.normal()).collect();
         // poor starts
         f.start = match model {
-            Model::Poly | Model::Trig => rng.vec(np, -10.0, 10.0),
+            Model::Poly | Model::Trig | Model::ScaledPoly | Model::ScaledTrig => rng.vec(np, -10.0, 10.0),
             Model::Exp => {
                 let mut s = vec![truth[0] * rng.log_range(0.2, 5.0), truth[1] + rng.range(-1.0, 1.0)];
                 if np > 2 {
@@ -813,7 +847,7 @@ mod lm {
     }
 
     fn detail(f: &Fit, o: (f64, f64, f64), extra: Value) -> Value {
-        json!({"model": format!("{:?}", f.model), "x": jf(&f.xs), "y": jf(&f.ys), "start": jf(&f.start), "LM": {"eps1": o.0, "eps2": o.1, "tau": o.2}, "detail": extra})
+        json!({"model": format!("{:?}", f.model), "basis_scale": jf(&f.scale), "x": jf(&f.xs), "y": jf(&f.ys), "start": jf(&f.start), "LM": {"eps1": o.0, "eps2": o.1, "tau": o.2}, "detail": extra})
     }
 
     pub fn monitor(cfg: &Cfg, rep: &mut Report, f: &Fit, rng: &mut Rng, all_budgets: bool) {
@@ -1104,6 +1138,385 @@ mod lm {
         }
     }
 
+    // -----------------------------------------------------------------------------------------
+    // problems at absolute scales far from 1
+    //
+    // Nothing in the property depends on the units of the data or of the basis functions: a fit of concentrations
+    // in mol/m³, of a late-time tail, of counts in 1e9, is a "random linear / exponential / logistic curve-fitting
+    // problem" like any other. LM's own arithmetic is scale-free by construction (the damping is μ·diag JᵀJ), so the
+    // absolute size of JᵀJ only matters where something compares a quantity with a CONSTANT — in the optimizer
+    // (eps1 is an absolute gradient threshold, μ0 = tau·max diag JᵀJ) or in what it calls (the linear solver behind
+    // the step δ and the covariance). Two families:
+    //
+    //  (i) `lm-scaled:*` — models linear in the parameters, Σ p_i·c_i·φ_i(x) with the polynomial / trigonometric
+    //      bases of the main workload, every basis function multiplied by a power of two or ten c_i in 1e-12..1e12
+    //      (all by the same factor — uniform-tiny / uniform-huge — or each by its own — mixed-tiny / mixed-huge /
+    //      mixed-wide), the responses by σ. In the units p_i·c2_i/σ2 (c2, σ2 the nearest powers of two: an exact
+    //      change of units) the problem is an ordinary O(1) problem (J_n, y_n), whose least-squares solution q is
+    //      computed in double-double. Judged
+    //        * with tolerances adapted to the scale — tau' = tau·max diag(J_nᵀJ_n)/max diag(JᵀJ) (same initial
+    //          damping as tau on the O(1) problem), eps1' = 1e-14·σ2·min c2 and eps2' = 1e-14·min(min s/max s, √min s), s_i = σ2/c2_i
+    //          (no looser, for any parameter, than (1e-14, 1e-14) on the O(1) problem): descent for the budgets
+    //          0,1,2,3,5,..,144,200; the result of the 200-step call is the least-squares solution to
+    //          1e-7(1+‖q‖) + floor in the O(1) units — the very demand of `reach_ls`, same conditioning gate;
+    //          covariance at the returned point for budgets 0, 8, 200;
+    //        * with the default tolerances (1e-6, 1e-6, 1e-2), which at these scales stop at once or after a few
+    //          steps: descent and the covariance at whatever point is returned.
+    // (ii) `lm-plateau:*` — exponential fits of late-time data started with a rate several times too fast and
+    //      logistic fits started with the midpoint far outside the data: the model is flat at the start, the
+    //      Jacobian tiny (exp(b·x), s(1−s) below 1e-8). Descent for the Fibonacci budgets and covariance at the
+    //      returned point, with the default tolerances (stop at once: covariance at the start) and with a gradient
+    //      threshold relative to the gradient at the start (1e-10·‖Jᵀr(start)‖∞, eps2 = 1e-10).
+    //
+    // The covariance clause is judged scale-free: with D = diag of the column norms of the analytic Jacobian at the
+    // returned point and C = D⁻¹JᵀJD⁻¹ (unit diagonal), D·cov·D/s² must equal C⁻¹ (double-double) to
+    // 1000(n+p)ε·κ∞(C)·max|C⁻¹|, κ∞(C) ≤ 4.5e7/(n+p) — the bound of `check_cov` on the problem in its natural units.
+
+    pub struct Scaled {
+        pub fit: Fit,
+        /// nearest powers of two of the column factors and of the response factor
+        pub c2: Vec<f64>,
+        pub sigma2: f64,
+        pub kind: &'static str,
+    }
+
+    fn pow2_near(v: f64) -> f64 {
+        (2.0f64).powi(v.log2().round() as i32)
+    }
+
+    /// 10^e or the power of two closest to it
+    fn scale_factor(rng: &mut Rng, lo: i64, hi: i64) -> f64 {
+        let e = rng.int(lo, hi) as i32;
+        let v = (10.0f64).powi(e);
+        if rng.bool() {
+            v
+        } else {
+            pow2_near(v)
+        }
+    }
+
+    pub fn scaled_fit(rng: &mut Rng, k: usize) -> Scaled {
+        let model = if rng.chance(0.6) { Model::ScaledPoly } else { Model::ScaledTrig };
+        let mut f = random_fit(rng, model);
+        // one case in five keeps whatever number of parameters was drawn (1..5), the others have at least two
+        while f.start.len() < 2 && k % 5 != 4 {
+            f = random_fit(rng, model);
+        }
+        let np = f.start.len();
+        let (kind, c): (&'static str, Vec<f64>) = match k % 5 {
+            0 => ("lm-scaled:uniform-tiny", vec![scale_factor(rng, -12, -8); np]),
+            1 => ("lm-scaled:uniform-huge", vec![scale_factor(rng, 4, 12); np]),
+            2 => ("lm-scaled:mixed-tiny", (0..np).map(|_| scale_factor(rng, -12, -8)).collect()),
+            3 => ("lm-scaled:mixed-huge", (0..np).map(|_| scale_factor(rng, 3, 12)).collect()),
+            _ => ("lm-scaled:mixed-wide", (0..np).map(|_| scale_factor(rng, -12, 12)).collect()),
+        };
+        let gm = c.iter().map(|v| v.ln()).sum::<f64>() / np as f64;
+        // responses: in the units of the basis functions (parameters of order 1), unscaled, or in units of their own
+        let sigma = match rng.usize(0, 9) {
+            0..=3 => pow2_near(gm.exp()),
+            4..=6 => 1.0,
+            _ => scale_factor(rng, -12, 12),
+        };
+        // random_fit built y and the start for unit factors
+        for y in f.ys.iter_mut() {
+            *y *= sigma;
+        }
+        for i in 0..np {
+            f.start[i] = f.start[i] * sigma / c[i];
+        }
+        let c2 = c.iter().map(|&v| pow2_near(v)).collect();
+        f.scale = c;
+        Scaled { fit: f, c2, sigma2: pow2_near(sigma), kind }
+    }
+
+    /// squared column norms of an n×np row-major matrix (double-double accumulation)
+    fn col_sq(j: &[f64], n: usize, np: usize) -> Vec<f64> {
+        (0..np)
+            .map(|c| {
+                let mut s = Dd::ZERO;
+                for r in 0..n {
+                    s = s + Dd::prod(j[r * np + c], j[r * np + c]);
+                }
+                s.f()
+            })
+            .collect()
+    }
+
+    /// scale-free form of the covariance clause (see above)
+    fn check_cov_si(rep: &mut Report, regime: &str, fam: &str, f: &Fit, oo: (f64, f64, f64), k: usize, p: &[f64], cov: &[f64]) {
+        let np = p.len();
+        let n = f.xs.len();
+        let j = f.jacobian(p);
+        if j.iter().any(|v| !v.is_finite()) {
+            rep.seen(&format!("{}:cov:skipped(non-finite Jacobian)", fam), 1);
+            return;
+        }
+        let d: Vec<f64> = col_sq(&j, n, np).iter().map(|v| v.sqrt()).collect();
+        if d.iter().any(|&v| !(v > 0.0) || !v.is_finite()) {
+            rep.seen(&format!("{}:cov:skipped(zero Jacobian column)", fam), 1);
+            return;
+        }
+        let jn: Vec<f64> = j.iter().enumerate().map(|(i, v)| v / d[i % np]).collect();
+        let jt = linref::transpose(&jn, n, np);
+        let c = linref::matmul(&jt, &jn, np, n, np);
+        let Some(cinv) = linref::inverse(&c, np) else {
+            rep.seen(&format!("{}:cov:low-power(kappa)", fam), 1);
+            return;
+        };
+        let kappa = linref::inf_norm(&c, np, np) * linref::inf_norm(&cinv, np, np);
+        let tol = 1000.0 * (n + np) as f64 * EPS * kappa;
+        if !(tol <= 1e-3) {
+            rep.seen(&format!("{}:cov:low-power(kappa)", fam), 1);
+            return;
+        }
+        let s2 = f.rss(p) / (n - np) as f64;
+        if !(s2 > 0.0) || !s2.is_finite() {
+            rep.seen(&format!("{}:cov:skipped(s2)", fam), 1);
+            return;
+        }
+        rep.seen(&format!("{}:cov:judged", fam), 1);
+        let scale = linref::max_abs(&cinv);
+        let mut w = 0.0f64;
+        for a in 0..np {
+            for b in 0..np {
+                let e = (cov[a * np + b] / s2 * d[a] * d[b] - cinv[a * np + b]).abs();
+                w = if e.is_nan() { f64::INFINITY } else { w.max(e) };
+            }
+        }
+        let ratio = w / (tol * scale);
+        rep.note_max(&format!("worst_ratio.lm_covariance_vs_bound({})", fam), ratio);
+        rep.check("C10.lm.covariance", regime, ratio <= 1.0, || {
+            let expected: Vec<f64> = (0..np * np).map(|i| s2 * cinv[i] / (d[i / np] * d[i % np])).collect();
+            detail(f, oo, json!({"maxsteps": k, "returned": jf(p), "covariance": jf(cov), "expected": jf(&expected), "relative_tolerance": tol, "kappa_unit_diagonal_JtJ": jnum(kappa),
+                "jacobian_column_norms": jf(&d), "s2": jnum(s2)}))
+        });
+    }
+
+    /// One LM object, a ladder of budgets: no panic, shape, descent for every budget, covariance for the budgets in
+    /// `cov_at`. Returns the result of the last budget.
+    fn ladder(rep: &mut Report, regime: &str, fam: &str, f: &Fit, oo: (f64, f64, f64), ks: &[usize], cov_at: &[usize], rss0: f64) -> Option<(Vec<f64>, u64, u64)> {
+        let np = f.start.len();
+        let o = LM::new(oo.0, oo.1, oo.2);
+        let mut last = None;
+        for &k in ks {
+            let (s0, a0, r0) = (count(Site::LmStep), count(Site::LmAccept), count(Site::LmReject));
+            let r = guard(|| f.call(&o, k));
+            let (steps, acc, rej) = (count(Site::LmStep) - s0, count(Site::LmAccept) - a0, count(Site::LmReject) - r0);
+            rep.note_add("calls.optimize(lm)", 1.0);
+            match r {
+                Err(msg) => {
+                    rep.check("C10.lm.no_panic", regime, false, || detail(f, oo, json!({"maxsteps": k, "panic": msg})));
+                    return None;
+                }
+                Ok((p, cov, r_, c_)) => {
+                    rep.check("C10.lm.no_panic", regime, true, || json!(null));
+                    let shape_ok = p.len() == np && r_ == np && c_ == np && cov.len() == np * np && steps as usize <= k;
+                    if !rep.check("C10.lm.shape", regime, shape_ok, || detail(f, oo, json!({"maxsteps": k, "params": jf(&p), "cov_shape": [r_, c_], "steps": steps}))) {
+                        return None;
+                    }
+                    if steps > 0 {
+                        rep.seen(&format!("{}:iterated", fam), 1);
+                    }
+                    let rss = f.rss(&p);
+                    if rss0 > 0.0 && rss.is_finite() {
+                        rep.note_max(&format!("worst_ratio.lm_rss_returned_over_start({})", fam), rss / rss0);
+                    }
+                    rep.check("C10.lm.rss_not_increased", regime, rss <= rss0 * (1.0 + 1e-12), || {
+                        detail(f, oo, json!({"maxsteps": k, "steps_executed": steps, "accepted_steps": acc, "rejected_steps": rej, "returned": jf(&p), "rss_start": jnum(rss0), "rss_returned": jnum(rss)}))
+                    });
+                    if k == 0 {
+                        rep.check("C10.lm.budget0_returns_start", regime, same_bits_slice(&p, &f.start), || detail(f, oo, json!({"returned": jf(&p)})));
+                    }
+                    if cov_at.contains(&k) {
+                        check_cov_si(rep, regime, fam, f, oo, k, &p, &cov);
+                    }
+                    last = Some((p, acc, rej));
+                }
+            }
+        }
+        last
+    }
+
+    const FIB: [usize; 13] = [0, 1, 2, 3, 5, 8, 13, 21, 34, 55, 89, 144, 200];
+
+    /// labels for the size of JᵀJ at the start (what the quantifier's new regimes must reach)
+    fn note_jtj_size(rep: &mut Report, fam: &str, f: &Fit) -> Vec<f64> {
+        let np = f.start.len();
+        let n = f.xs.len();
+        let dsq = col_sq(&f.jacobian(&f.start), n, np);
+        let dmax = dsq.iter().fold(0.0f64, |m, &v| m.max(v));
+        let dmin = dsq.iter().fold(f64::INFINITY, |m, &v| m.min(v));
+        // every entry of JᵀJ is bounded by its largest diagonal entry
+        if dmax < EPS {
+            rep.seen(&format!("{}:max-diag-JtJ<eps", fam), 1);
+            if np >= 2 {
+                rep.seen(&format!("{}:max-diag-JtJ<eps:np>=2", fam), 1);
+            }
+        }
+        if dmin > 1.0 / EPS {
+            rep.seen(&format!("{}:min-diag-JtJ>1/eps", fam), 1);
+        }
+        if dmax >= EPS && dmin <= 1.0 / EPS && dmax / dmin > 1e16 {
+            rep.seen(&format!("{}:diag-JtJ-spread>1e16", fam), 1);
+        }
+        dsq
+    }
+
+    pub fn scaled_monitor(rep: &mut Report, sc: &Scaled, rng: &mut Rng) {
+        let f = &sc.fit;
+        let regime = sc.kind;
+        let fam = "lm-scaled";
+        let np = f.start.len();
+        let n = f.xs.len();
+        rep.case(regime);
+        rep.distinct(Hasher::new().s(regime).u(n as u64).fs(&f.scale).fs(&f.start).fs(&f.xs[..n.min(8)]).fs(&f.ys[..n.min(8)]).finish(), true);
+        let rss0 = f.rss(&f.start);
+        if !rss0.is_finite() {
+            rep.seen("lm:skipped(start RSS not finite)", 1);
+            return;
+        }
+        let dsq = note_jtj_size(rep, fam, f);
+        let dmax = dsq.iter().fold(0.0f64, |m, &v| m.max(v));
+        // the problem in O(1) units: exact rescaling by powers of two
+        let j = f.jacobian(&f.start);
+        let jn: Vec<f64> = j.iter().enumerate().map(|(i, v)| v / sc.c2[i % np]).collect();
+        let yn: Vec<f64> = f.ys.iter().map(|v| v / sc.sigma2).collect();
+        let jt = linref::transpose(&jn, n, np);
+        let a = linref::matmul(&jt, &jn, np, n, np);
+        let amax = (0..np).map(|i| a[i * np + i]).fold(0.0f64, f64::max);
+        let unit: Vec<f64> = sc.c2.iter().map(|c| sc.sigma2 / c).collect();
+        let smin = unit.iter().fold(f64::INFINITY, |m, &v| m.min(v));
+        let smax = unit.iter().fold(0.0f64, |m, &v| m.max(v));
+        let cmin = sc.c2.iter().fold(f64::INFINITY, |m, &v| m.min(v));
+
+        // ---- tolerances adapted to the scale
+        let tau_b = *rng.choose(&[1e-2, 1e-3, 1e-6]);
+        // small-step rule ‖δ‖ ≤ eps2(‖p‖ + eps2): |δ_i|/s_i ≤ eps2(√p·s_max‖p‖∞ + eps2)/s_min in the O(1) units, so
+        // eps2' = 1e-14·min(s_min/s_max, √s_min) is no looser for any parameter than 1e-14(‖p‖ + 1e-14) there (the
+        // absolute term eps2² of the rule is what a fit with parameters of order 1e-20 has to be told about)
+        let oo = (1e-14 * sc.sigma2 * cmin, 1e-14 * (smin / smax).min(smin.sqrt()), tau_b * amax / dmax);
+        let kmax = 200usize;
+        let last = ladder(rep, regime, fam, f, oo, &FIB, &[0, 8, kmax], rss0);
+        if let Some((p, acc, rej)) = last {
+            let kappa = linref::cond_inf(&a, np);
+            let pls = if kappa * EPS * 1e3 <= 1e-8 { linref::ridge_ls(&jn, &yn, None, &vec![0.0; np], n, np) } else { None };
+            match pls {
+                None => rep.seen("lm-scaled:reach:skipped(kappa(JtJ) > 4e4 in O(1) units)", 1),
+                Some(q) => {
+                    rep.seen("lm-scaled:reach:judged", 1);
+                    let lmin = linref::jacobi_eigenvalues(&a, np)[0].max(f64::MIN_POSITIVE);
+                    let mut rss_q = Dd::ZERO;
+                    for r in 0..n {
+                        let m: f64 = (0..np).map(|i| jn[r * np + i] * q[i]).sum();
+                        rss_q = rss_q + Dd::prod(yn[r] - m, yn[r] - m);
+                    }
+                    let (mut e, mut nr) = (0.0, 0.0);
+                    for i in 0..np {
+                        let pi = p[i] / unit[i];
+                        e += (pi - q[i]) * (pi - q[i]);
+                        nr += q[i] * q[i];
+                    }
+                    // noise floor of the gain-ratio test as in `reach_ls`, 32× instead of 16×: the worst of 12 500 scaled fits
+                    // (a cubic with κ(JᵀJ) = 3.3e4, just inside the gate) sat at 2.3× the bare floor, the others below 0.7×
+                    let floor = 32.0 * (n as f64 * EPS * rss_q.f() / lmin).sqrt();
+                    let tol = 1e-7 * (1.0 + nr.sqrt()) + floor;
+                    let ratio = e.sqrt() / tol;
+                    let ratio = if ratio.is_nan() { f64::INFINITY } else { ratio };
+                    if ratio <= 1.0 {
+                        rep.note_max("worst_ratio.lm_scaled_distance_to_ls(passing)", ratio);
+                    }
+                    rep.check("C10.lm.reaches_least_squares", regime, ratio <= 1.0, || {
+                        let pls: Vec<f64> = (0..np).map(|i| q[i] * unit[i]).collect();
+                        detail(f, oo, json!({"maxsteps": kmax, "returned": jf(&p), "least_squares": jf(&pls), "parameter_units": jf(&unit), "distance_in_units": e.sqrt(), "tolerance_in_units": tol,
+                            "accepted_steps": acc, "rejected_steps": rej, "kappa_JtJ_in_units": kappa, "rss_returned": jnum(f.rss(&p)), "rss_least_squares": jnum(f.rss(&pls))}))
+                    });
+                }
+            }
+        }
+
+        // ---- default tolerances: descent and covariance only
+        let oo = (1e-6, 1e-6, 1e-2);
+        ladder(rep, regime, fam, f, oo, &[0, 1, 2, 3, 8, 34, kmax], &[0, 3, kmax], rss0);
+    }
+
+    /// exponential / logistic fits started where the model is flat
+    pub fn plateau_fit(rng: &mut Rng, k: usize) -> (Fit, &'static str) {
+        let n = (rng.log_range(5.0, 200.0).round() as usize).max(5);
+        if k % 2 == 0 {
+            // late-time data of a slow decay, rate guess several times too fast
+            let np = rng.usize(2, 3);
+            let lo = rng.range(15.0, 40.0);
+            let span = rng.range(5.0, 25.0);
+            let mut xs: Vec<f64> = (0..n).map(|_| rng.range(lo, lo + span)).collect();
+            xs.sort_by(|a, b| a.partial_cmp(b).unwrap());
+            let mut truth = vec![rng.range(5.0, 100.0) * if rng.bool() { 1.0 } else { -1.0 }, -rng.range(0.02, 0.15)];
+            if np > 2 {
+                truth.push(rng.range(-2.0, 2.0));
+            }
+            let mut f = Fit { model: Model::Exp, xs, ys: vec![], start: vec![], scale: vec![] };
+            let amp = (truth[0] * (truth[1] * (lo + 0.5 * span)).exp()).abs();
+            let noise = rng.log_range(1e-3, 0.1) * amp;
+            f.ys = f.xs.iter().map(|&x| f.value(&truth, x) + noise * rng.normal()).collect();
+            // exp(b·x) <= exp(-19) = 5.6e-9 at every point
+            let b = -rng.range(19.0, 60.0) / f.xs[0];
+            f.start = vec![truth[0] * rng.log_range(0.05, 5.0), b];
+            if np > 2 {
+                f.start.push(truth[2] + rng.range(-3.0, 3.0));
+            }
+            (f, "lm-plateau:exp")
+        } else {
+            let mut xs: Vec<f64> = (0..n).map(|_| rng.range(-4.0, 4.0)).collect();
+            xs.sort_by(|a, b| a.partial_cmp(b).unwrap());
+            let truth = vec![rng.range(1.0, 5.0), rng.range(0.5, 3.0), rng.range(-1.5, 1.5)];
+            let noise = rng.log_range(1e-3, 0.3);
+            let mut f = Fit { model: Model::Logistic, xs, ys: vec![], start: vec![], scale: vec![] };
+            f.ys = f.xs.iter().map(|&x| f.value(&truth, x) + noise * rng.normal()).collect();
+            let rate = truth[1] * rng.log_range(1.0, 3.0);
+            let far = rng.range(19.0, 60.0) / rate;
+            // midpoint guessed beyond the last point (lower plateau: all three columns tiny) or before the first one
+            // (upper plateau: the model equals its asymptote, only the amplitude column is of order 1)
+            let (mid, label) = if rng.chance(0.7) { (f.xs[n - 1] + far, "lm-plateau:logistic-lower") } else { (f.xs[0] - far, "lm-plateau:logistic-upper") };
+            f.start = vec![truth[0] * rng.log_range(0.3, 3.0), rate, mid];
+            (f, label)
+        }
+    }
+
+    pub fn plateau_monitor(rep: &mut Report, f: &Fit, regime: &'static str, rng: &mut Rng) {
+        let fam = "lm-plateau";
+        let np = f.start.len();
+        let n = f.xs.len();
+        rep.case(regime);
+        rep.distinct(Hasher::new().s(regime).u(n as u64).fs(&f.start).fs(&f.xs[..n.min(8)]).fs(&f.ys[..n.min(8)]).finish(), true);
+        let rss0 = f.rss(&f.start);
+        if !rss0.is_finite() {
+            rep.seen("lm:skipped(start RSS not finite)", 1);
+            return;
+        }
+        let dsq = note_jtj_size(rep, fam, f);
+        let dmax = dsq.iter().fold(0.0f64, |m, &v| m.max(v));
+        // default tolerances
+        ladder(rep, regime, fam, f, (1e-6, 1e-6, 1e-2), &[0, 1, 2, 3, 8, 34, 200], &[0, 3, 200], rss0);
+        // gradient threshold relative to the gradient at the start
+        let j = f.jacobian(&f.start);
+        let mut g = 0.0f64;
+        for c in 0..np {
+            let mut s = Dd::ZERO;
+            for r in 0..n {
+                s = s + Dd::prod(j[r * np + c], f.ys[r] - f.value(&f.start, f.xs[r]));
+            }
+            g = g.max(s.f().abs());
+        }
+        if !(g > 0.0) || !g.is_finite() || !(dmax > 0.0) {
+            rep.seen("lm-plateau:skipped(no gradient at the start)", 1);
+            return;
+        }
+        let tau = *rng.choose(&[1e-2, 1e-3, 1.0]);
+        // the damping the user asked for: relative to the columns (tau) or as an absolute number (tau/max diag JᵀJ)
+        let tau = if rng.bool() { tau } else { tau / dmax };
+        let oo = (1e-10 * g, 1e-10, tau);
+        ladder(rep, regime, fam, f, oo, &FIB, &[0, 8, 200], rss0);
+    }
+
     /// Linear models: the least-squares solution must be reached with `LM::new(1e-14, 1e-14, τ)`.
     ///
     /// Budget: on a linear model every textbook damping rule (Marquardt ×/÷, Nielsen) shrinks μ
@@ -1232,12 +1645,13 @@ fn directed(rep: &mut Report, rng: &mut Rng) {
 }
 
 pub fn run(cfg: &Cfg, rep: &mut Report) {
-    rep.rule = "Adam/SGD: random objective (convex / non-convex quadratic in 1..8 dims with eigenvalues 0.05..4 resp. -1..4, chained Rosenbrock in 2..4 dims, mean-squared-error losses of p0*exp(p1 t)[+p2], p0*sin(p1 t+p2), (p0+p1 t)/(1+(p2 t)^2) on 5..30 points) x optimizer (Adam, plain SGD, momentum, Nesterov) x hyper-parameters (stepsize log-uniform 1e-4..0.5, beta1/beta2 in (0.01,0.9999), momentum in [0,0.99]); every maxsteps 0..K is a separate optimize call on one reused optimizer object (K = 200, plus in both tiers 4 (thorough 16) long trajectories per optimizer with budgets 255..257, 511..513, 999..1001, 1023..1025, 1499, 1500, 1999, 2000, stepsize 1e-4..5e-3 and beta1/beta2/momentum in {0.9, 0.95, 0.99, 0.999, 0.9999}; thorough: 0..200 dense for all 400 cases, 12 cases dense to 2000, the others 40 random budgets k in 201..2000 each with k-1). LM: random polynomial / trigonometric (linear), exponential and logistic fits, 5..200 noisy points, 1..5 parameters, poor starts; every budget 0..200 is a separate call for n <= 12, else budgets 0..12 (0..8 for n > 100) + 10 (4) random ones + 200. Then separable quadratics whose solution components differ by up to 1e12 in size (2..6 dims, per-coordinate contraction rates stepsize*a_i in {1, .5, .75, 1.5, .25} and sometimes one slow coordinate .05/.1) for the four optimizers, same trajectory / early-stop oracle. Then linear LM problems started 1e2..1e8 solution norms away from the least-squares solution (direction components differing by up to 1e6): descent for budgets 0,1,2,3,5,..,144,200 with (eps,eps,tau), eps in {1e-6,1e-8,1e-10}, tau in {1e-2,1e-3,1e-6,1e-9}; a call that stopped before its budget lies within the distance its own stop rules imply; (1e-14,1e-14,tau) reaches the solution. non-trivial = every case (all have a non-zero gradient at the start); distinct by (regime, hyper-parameters, start, data prefix)".into();
+    rep.rule = "Adam/SGD: random objective (convex / non-convex quadratic in 1..8 dims with eigenvalues 0.05..4 resp. -1..4, chained Rosenbrock in 2..4 dims, mean-squared-error losses of p0*exp(p1 t)[+p2], p0*sin(p1 t+p2), (p0+p1 t)/(1+(p2 t)^2) on 5..30 points) x optimizer (Adam, plain SGD, momentum, Nesterov) x hyper-parameters (stepsize log-uniform 1e-4..0.5, beta1/beta2 in (0.01,0.9999), momentum in [0,0.99]); every maxsteps 0..K is a separate optimize call on one reused optimizer object (K = 200, plus in both tiers 4 (thorough 16) long trajectories per optimizer with budgets 255..257, 511..513, 999..1001, 1023..1025, 1499, 1500, 1999, 2000, stepsize 1e-4..5e-3 and beta1/beta2/momentum in {0.9, 0.95, 0.99, 0.999, 0.9999}; thorough: 0..200 dense for all 400 cases, 12 cases dense to 2000, the others 40 random budgets k in 201..2000 each with k-1). LM: random polynomial / trigonometric (linear), exponential and logistic fits, 5..200 noisy points, 1..5 parameters, poor starts; every budget 0..200 is a separate call for n <= 12, else budgets 0..12 (0..8 for n > 100) + 10 (4) random ones + 200. Then separable quadratics whose solution components differ by up to 1e12 in size (2..6 dims, per-coordinate contraction rates stepsize*a_i in {1, .5, .75, 1.5, .25} and sometimes one slow coordinate .05/.1) for the four optimizers, same trajectory / early-stop oracle. Then linear LM problems started 1e2..1e8 solution norms away from the least-squares solution (direction components differing by up to 1e6): descent for budgets 0,1,2,3,5,..,144,200 with (eps,eps,tau), eps in {1e-6,1e-8,1e-10}, tau in {1e-2,1e-3,1e-6,1e-9}; a call that stopped before its budget lies within the distance its own stop rules imply; (1e-14,1e-14,tau) reaches the solution. Then LM at absolute scales far from 1: linear fits sum p_i c_i phi_i(x) (same polynomial / trigonometric bases, 1..5 parameters, 5..200 points) with every basis function multiplied by a power of two or ten c_i in 1e-12..1e12 (one common factor: uniform-tiny 1e-12..1e-8, uniform-huge 1e4..1e12; individual factors: mixed-tiny, mixed-huge, mixed-wide 1e-12..1e12) and the responses by sigma (parameters of order 1, unscaled responses, or a random power in 1e-12..1e12) - budgets 0,1,2,3,5,..,144,200 with tolerances adapted to the scale (descent, least-squares solution reached in the problem's own units, covariance) and budgets 0,1,2,3,8,34,200 with the default tolerances (descent, covariance); exponential fits of late-time data (x in [15..40, +5..25]) started with exp(rate*x) <= exp(-19) at every point and logistic fits started with the midpoint 19..60 rate-lengths outside the data - same budgets with the default tolerances and with eps1 = 1e-10*|gradient at the start| (descent, covariance judged scale-free against the unit-diagonal form of JtJ). non-trivial = every case (all have a non-zero gradient at the start); distinct by (regime, hyper-parameters, start, data prefix)".into();
     rep.assume("objectives avoid `f64 / Var` nodes: reverse 0.2.2 differentiates c/x as -1/x (a defect of the autodiff dependency, not of compute); divisions are Var/Var and Var/f64");
     rep.assume("iterates are compared while the reference is finite (< 1e150) and the self-calibrated tolerance stays below 1e-6*(1+|x|); later budgets of such a case are counted under '<regime>:low-power' and only checked for panics, shape, early-stop rule and determinism");
     rep.assume("'stopped changing' is judged on the library's own reconstructed iterates j and j-1 (4 ulp, same sign); the library iterate j is itself tied to the reference iterate j by the iterate assertion");
     rep.assume("LM: n >= p + 2 (s^2 = RSS/(n-p) is undefined for n = p); starts with non-finite RSS are skipped; reaching the least-squares solution is demanded only when kappa(JtJ) <= 4e4 (normal equations in double precision can deliver 1e-7) with LM::new(1e-14,1e-14,tau) and 200 steps (2000 in the thorough tier for the poorly conditioned class)");
     rep.assume("LM far starts: the stop-rule bound is asserted only when the call stopped before its budget, no step was rejected (hook; every step of a linear model has gain ratio 2 against the damped model that was solved, is accepted and divides the damping by 3, so mu <= tau*max diag(JtJ), for every column scaling) and (1 + mu0*||inv(JtJ) diag(JtJ)||)*eps2 <= 0.1; other cases are counted under lm-linear:far-start:stop-bound:low-power(*)");
+    rep.assume("LM scaled fits: the least-squares clause is judged in the units p_i*c2_i/sigma2 (c2, sigma2 = nearest powers of two of the column / response factors, an exact change of units) with tau' = tau*max diag(JtJ in units)/max diag(JtJ), eps1' = 1e-14*sigma2*min c2, eps2' = 1e-14*min(min unit/max unit, sqrt(min unit)), when kappa(JtJ in units) <= 4e4; the covariance clause of the scaled and plateau fits is judged on D cov D / s^2 against inv(D^-1 JtJ D^-1), D = Jacobian column norms at the returned point, when 1000(n+p)eps*kappa of that unit-diagonal form <= 1e-3 (else counted under *:cov:low-power(kappa))");
     let (ncase, kmax) = if cfg.lite { (cfg.pick(8, 8, 2), 20) } else if cfg.thorough() { (400, 2000) } else { (60, 200) };
     let nlm = cfg.pick(200, 5000, 2);
     // LM problems are generated up front (own seed per problem) so that they can be scheduled by cost
@@ -1268,6 +1682,8 @@ pub fn run(cfg: &Cfg, rep: &mut Report) {
         Directed,
         Lm(usize),
         LmFar(usize),
+        LmScaled(usize),
+        LmPlateau(usize),
         Idle,
     }
     // parameter vectors whose components differ by up to 1e12 in size (stream 4), linear LM fits from far starts (stream 5)
@@ -1282,6 +1698,12 @@ pub fn run(cfg: &Cfg, rep: &mut Report) {
     traj_items.extend((0..nlong).map(Item::TrajLong));
     let mut lm_items: std::collections::VecDeque<Item> = lm_order.iter().map(|&k| Item::Lm(k)).collect();
     lm_items.extend((0..nfar).map(Item::LmFar));
+    // linear fits whose basis functions are uniformly or individually tiny / huge (stream 7), exponential and logistic
+    // fits started on a plateau (stream 8): up to 33 calls of up to 200 steps each, not in the interpreter
+    let nscaled_lm = if cfg.miri() { 0 } else { cfg.pick(150, 2500, 2) };
+    let nplateau = if cfg.miri() { 0 } else { cfg.pick(60, 1000, 2) };
+    lm_items.extend((0..nscaled_lm).map(Item::LmScaled));
+    lm_items.extend((0..nplateau).map(Item::LmPlateau));
     let mut sched: Vec<Item> = Vec::new();
     while !traj_items.is_empty() || !lm_items.is_empty() {
         let slot0 = sched.len() % t == 0;
@@ -1384,6 +1806,20 @@ pub fn run(cfg: &Cfg, rep: &mut Report) {
                 None => rep.seen("lm-linear:far-start:skipped(no reference solution)", 1),
             }
         }
+        Item::LmScaled(k) => {
+            let seed = case_seed(cfg.seed, 7, k as u64);
+            rep.case_seed = seed;
+            let rng = &mut Rng::new(seed);
+            let sc = lm::scaled_fit(rng, k);
+            lm::scaled_monitor(rep, &sc, rng);
+        }
+        Item::LmPlateau(k) => {
+            let seed = case_seed(cfg.seed, 8, k as u64);
+            rep.case_seed = seed;
+            let rng = &mut Rng::new(seed);
+            let (f, regime) = lm::plateau_fit(rng, k);
+            lm::plateau_monitor(rep, &f, regime, rng);
+        }
         Item::Lm(k) => {
             let (seed, f) = &fits[k];
             rep.case_seed = *seed;
@@ -1419,6 +1855,14 @@ pub fn run(cfg: &Cfg, rep: &mut Report) {
         }
         for d in 2..8 {
             rep.require(&format!("far-start:ratio=1e{}", d), 1);
+        }
+        if !cfg.miri() {
+            for l in ["uniform-tiny", "uniform-huge", "mixed-tiny", "mixed-huge", "mixed-wide", "max-diag-JtJ<eps", "max-diag-JtJ<eps:np>=2", "min-diag-JtJ>1/eps", "diag-JtJ-spread>1e16", "reach:judged", "cov:judged", "iterated"] {
+                rep.require(&format!("lm-scaled:{}", l), 1);
+            }
+            for l in ["exp", "logistic-lower", "logistic-upper", "max-diag-JtJ<eps", "max-diag-JtJ<eps:np>=2", "cov:judged", "iterated"] {
+                rep.require(&format!("lm-plateau:{}", l), 1);
+            }
         }
         for s in ["adam.step", "sgd.step", "lm.step", "lm.accept", "lm.reject"] {
             rep.require(s, 1);
